@@ -469,6 +469,8 @@ def clone_val(v):
     if isinstance(v, Struct):
         return Struct(v.name, [clone_val(x) for x in v])
     if isinstance(v, list):
+        if type(v) is not list:
+            return type(v)([clone_val(x) for x in v])
         return [clone_val(x) for x in v]
     if isinstance(v, En):
         return En(v.v, [clone_val(x) for x in v.f])
@@ -525,3 +527,4 @@ def bool_ops(eng, callee, a, m, fc):
 
 from . import ext_std      # noqa: E402,F401  (containers and iterators)
 from . import ext_na       # noqa: E402,F401  (nalgebra / parry)
+from . import ext_simd     # noqa: E402,F401  (simba AutoSimd lanes, parry Qbvh traversal contract)
